@@ -15,7 +15,7 @@ import (
 // in the middle of arbitrary histories (after Remove/Clean, between rejected
 // registrations); the only oracle is the recover() monitor.
 
-var garbagePieces = []string{"{", "}", ":", "-", "/", "*", "", "\\d+", "[", "(", ")", "id", "{id}", "{id:\\d+}", "{-x}", "{x:digit}", "a", "b", "\xff", "\x00", "{{", "}}", "{:}", "{}", "{-}", "%", "?", "#", " ", "/a/", ".html", "{a}{b}", "{a:[}", "é", "{a:(?P<a>x)}", "+", "|", "^", "$", "\\"}
+var garbagePieces = []string{"{", "}", ":", "-", "/", "*", "", "\\d+", "[", "(", ")", "id", "{id}", "{id:\\d+}", "{-x}", "{x:digit}", "a", "b", "\xff", "\x00", "{{", "}}", "{:}", "{}", "{-}", "%", "?", "#", " ", "/a/", ".html", "{a}{b}", "{a:[}", "é", "{a:(?P<a>x)}", "+", "|", "^", "$", "\\", "{id:a)|(b}", "{v:x)|(y}/z", ")|(", "{w:(}", "{q:a|b)}", "b", "y/z"}
 
 func garbage(r *Rng) string {
 	switch r.Intn(12) {
@@ -33,7 +33,7 @@ func garbage(r *Rng) string {
 }
 
 var hostileMethods = []string{"GET", "POST", "OPTIONS", "HEAD", "TRACE", "", "get", "BOGUS", "CONNECT", "PRI", "\xff", "G E T", strings.Repeat("M", 300), "DELETE", "PATCH"}
-var hostilePaths = []string{"*", "", "/", "//", "x", "/\xff\xfe", "/%zz", "/a/../b", "/\x00", "/{id}", "{", "}", "/users/{", "?", " ", "/s/", "/s", "/u/1/", "/.", "/./", "/../", "/a//b", "\\", "/users/5/7/log", "/posts/1.html"}
+var hostilePaths = []string{"b", "/b", "y/z", "/y/z", "a", "*", "", "/", "//", "x", "/\xff\xfe", "/%zz", "/a/../b", "/\x00", "/{id}", "{", "}", "/users/{", "?", " ", "/s/", "/s", "/u/1/", "/.", "/./", "/../", "/a//b", "\\", "/users/5/7/log", "/posts/1.html"}
 var hostileHosts = []string{"", "example.com", "EXAMPLE.com:80", "example.com:", "example.com:x", "[::1]", "[::1]:80", "[", "]", "[]", ":", "::", "a.example.com:99999999999", "\xff.com", "*.example.com", "{sub}.example.com", "api.example.com", "A.b.C", ".", "..", "[::1", "::1]", "x:1:2", strings.Repeat("a.", 200)}
 
 func hostileReq(r *Rng, pats []*Pattern) Req {
